@@ -36,6 +36,7 @@ func MultiStoreWithCache(cmdOpt cmdStoreOptions, cacheLocation string, storeLoca
 
 		if ls, ok := cache.(desync.LocalStore); ok {
 			ls.UpdateTimes = true
+			cache = ls
 		}
 		if cmdOpt.cacheRepair {
 			cache = desync.NewRepairableCache(cache)
